@@ -38,6 +38,8 @@ def gen_doc(R, scoped=False, maxlayers=3):
     G.attrpath_top_only = True
     body = G.mset(0, 2)
     if R.random() < 0.25: body = 'rec ' + body
+    commented = R.random() < 0.3
+    if commented: body = R.choice(['# about this set\n', '# pinned\n# by tooling\n', '/* note */\n']) + body
     shapes = [k for k, v in WRAPPERS.items() if v[2] or not scoped]
     shape = R.choice(shapes)
     nl = R.choice([0, 0, 1, 1, 2, 3][:maxlayers + 3]) if WRAPPERS[shape][2] else 0
@@ -45,7 +47,7 @@ def gen_doc(R, scoped=False, maxlayers=3):
     pre, suf, _ = WRAPPERS[shape]
     if shape in ('call', 'lambda_call'): text = pre + body + '\n'
     else: text = pre + let_text(layers, body) + suf + '\n'
-    return text, {'shape': shape, 'layers': layers}
+    return text, {'shape': shape, 'layers': layers, 'commented': commented}
 
 # ------------------------------------------------------------------ readers over the CST
 def read_layers(text):
